@@ -294,7 +294,7 @@ pub fn run(ctx: &mut Ctx) {
         ctx.expect_nonzero(c);
     }
     // (a)
-    let p = DocParams { max_nodes: ctx.tier.pick(4, 5), globals: vec![ID_TAG, ID_VOID], exclude: vec![], unknown_subsets: false, devs: 0, payload_classes: false, big_payloads: false, noncanonical: false, width_devs: false, extras: true };
+    let p = DocParams { max_nodes: ctx.tier.pick(4, 5), globals: vec![ID_TAG, ID_VOID], exclude: vec![], unknown_subsets: false, devs: 0, payload_classes: false, big_payloads: false, noncanonical: false, width_devs: false, extras: true, all_widths: false };
     docs::for_each_doc(ctx, &rs, &p, &mut |ctx, doc| {
         let (bytes, lay) = ref_encode(doc);
         for f in faults_for(&rs, doc) {
@@ -386,7 +386,7 @@ pub fn run(ctx: &mut Ctx) {
         sweep_universal(ctx, &rs, s, "sigma", &limits);
         !ctx.should_stop()
     });
-    let p2 = DocParams { max_nodes: ctx.tier.pick(3, 4), globals: vec![ID_TAG, ID_VOID], exclude: vec![], unknown_subsets: true, devs: 0, payload_classes: false, big_payloads: false, noncanonical: false, width_devs: false, extras: true };
+    let p2 = DocParams { max_nodes: ctx.tier.pick(3, 4), globals: vec![ID_TAG, ID_VOID], exclude: vec![], unknown_subsets: true, devs: 0, payload_classes: false, big_payloads: false, noncanonical: false, width_devs: false, extras: true, all_widths: false };
     let mlimits = [MaxSize::Limit(1 << 16), MaxSize::Limit(5)];
     docs::for_each_doc(ctx, &rs, &p2, &mut |ctx, doc| {
         let (bytes, lay) = ref_encode(doc);
